@@ -101,7 +101,7 @@ package nsqd
 // A connection in state subscribed or closing has its channel (SUB stores both before it returns;
 // commands of one connection are executed one after the other by IOLoop).
 //@ pred consuming(client *clientV2) := client.State == stateSubscribed || client.State == stateClosing
-//@ pred hasChannel(client *clientV2) := consuming(client) ==> client.Channel != nil
+//@ pred hasChannel(client *clientV2) := consuming(client) ==> client.Channel != nil && client.Channel.nsqd != nil
 
 // ---- FIN ------------------------------------------------------------------------------------
 //@ func (p *protocolV2) FIN(client *clientV2, params [][]byte) ([]byte, error)
